@@ -81,6 +81,15 @@ ASSUME \A it \in Small : \A nlb \in 1..3 :
                                       nested |-> Header("L", 1) \o EncodeNLB(it, nlb)])>>)
 ASSUME \A it \in Small : \A nlb \in 2..3 :
          LET b == EncodeNLB(it, nlb) r == Decode(b, 1) IN r.ok /\ r.item = Canon(it) /\ r.next = Len(b) + 1
+(* C02: in a BOOLEAN item every non-zero byte denotes TRUE, not only 1 (what a peer may legally send)  *)
+TrueBytes == {2, 127, 128, 255}
+BoolAlt(it, t) == Header("BOOLEAN", Len(it.v)) \o [i \in 1..Len(it.v) |-> IF it.v[i] THEN t ELSE 0]
+HasTrue(it) == \E i \in 1..Len(it.v) : it.v[i]
+ASSUME \A it \in BoolItems : \A t \in TrueBytes :
+         LET b == BoolAlt(it, t) r == Decode(b, 1) IN r.ok /\ r.item = it /\ r.next = Len(b) + 1
+ASSUME \A it \in BoolItems : \A t \in TrueBytes :
+         HasTrue(it) => PrintT(<<"NLB", ToJson([item |-> it, nlb |-> 1, bytes |-> BoolAlt(it, t), canon |-> Encode(it),
+                                               nested |-> Header("L", 1) \o BoolAlt(it, t)])>>)
 (* C14: plain integers and the narrowest type that holds them                                        *)
 Pad8(q) == Rep(0, 8 - Len(q)) \o q
 PlainMags == {Pad8(<<0>>), Pad8(<<1>>), Pad8(<<127>>), Pad8(<<128>>), Pad8(<<129>>), Pad8(<<255>>), Pad8(<<1, 0>>), Pad8(<<127, 255>>),
